@@ -4,7 +4,9 @@ on a corpus written to a private directory and read the produced gzip back.
 Nothing of the windowing is re-implemented here: the file is only split at
 `\\n`, `\\t` and `_`.
 """
+import contextlib
 import gzip
+import io
 import os
 import shutil
 import tempfile
@@ -77,8 +79,13 @@ def op_create_event_file(t):
                   remove_duplicates=bool(t['remove_duplicates']))
         if t.get('options') is not None:
             kw['event_options'] = tuple(t['options'])
+        if t.get('verbose'):
+            # X1: the `if verbose:` block (progress dot + flush of the half-written gzip stream) runs for
+            # the first corpus line; the printed text is captured in memory
+            kw['verbose'] = True
         try:
-            preprocess.create_event_file(corpus, event, **kw)
+            with contextlib.redirect_stdout(io.StringIO()):
+                preprocess.create_event_file(corpus, event, **kw)
         except Exception as e:  # noqa
             res = {'err': _classify(e), 'cls': type(e).__name__, 'msg': str(e)[:200]}
             if before is not None:
